@@ -316,6 +316,21 @@ func runKeys(c *core.Ctx, st pred.Style, base []pred.Row) {
 			if isRead && fForm == "val" {
 				fForm = "&&"
 			}
+			if fam == "Delete" && kt.soft {
+				// a soft delete of a value that is no pointer is refused (ErrInvalidValue): not generated
+				if fForm == "val" {
+					fForm = "&"
+				}
+				if sForm == "val" || sForm == "[]*" {
+					if fin == "Delete(slice)" {
+						sForm = "&" + strings.TrimPrefix(sForm, "val")
+					}
+				}
+			}
+			if fin == "Updates(&struct with key)" && fForm == "val" {
+				// Updates(record) assigns the key column as well when the record is no pointer
+				fForm = "&&"
+			}
 			byValueFinisher := false
 			switch fin {
 			case "Model(key).Delete(keyless)", "Model(key).Delete(key2)", "Model(slice).Delete(keyless)":
